@@ -36,6 +36,11 @@ class FileFormat():
         self.fields = dict((f.name, f) for f in schema.fields)
         self.temporal_format_property = temporal_format_property
         self.missing_values = schema.descriptor.get('missingValues', [])
+        # a null is written as a text that the recorded schema reads back as null: NULL_VALUE when the
+        # schema's missingValues has it (or none are declared), otherwise the first of the declared ones
+        self.null_value = self.NULL_VALUE
+        if self.NULL_VALUE is not None and self.missing_values and self.NULL_VALUE not in self.missing_values:
+            self.null_value = self.missing_values[0]
 
         # Set fields' serializers
         for field in schema.fields:
@@ -63,7 +68,7 @@ class FileFormat():
 
     def __transform_value(self, value, field):
         if value is None:
-            return self.NULL_VALUE
+            return self.null_value
         # It supports a `tableschema`'s mode of perserving missing values
         # https://github.com/frictionlessdata/tableschema-py#experimental
         if value in self.missing_values:
